@@ -236,6 +236,14 @@ def cli_determinism(chk, pid, tier, seed):
         b"1 + true + false + type + int + bool",
         b"if 1 then (if 2 then (if 3 then 4 else 5) else 6) else 7",
         b"(1 2) (3 4) (5 6) (7 8)",
+        # ONE diagnostic whose text could be completed from a hash container: an unbound name with several
+        # equally near candidates in scope (equal up to case, one character apart, common prefix)
+        b"fooBar = 1; foobar = 2; FOOBAR = 3; Foobar = 4; FooBar",
+        b"(fooBar : int) => (foobar : int) => (fOObar : int) => FooBar + 1",
+        b"count1 = 1; count2 = 2; count3 = 3; count4 = 4; count5 = 5; count",
+        b"xa = 1; xb = 2; xc = 3; xd = 4; xe = 5; xf = 6; xg = 7; xz + xy",
+        b"value = 1; Value = 2; VALUE = 3; vAlue = 4; valuE + vaLue + valUe",
+        b"f = (abc : int) => (abd : int) => (abe : int) => (abf : int) => abg; f",
     ]
     files.extend(multi)
     progs = _programs(chk, "C01", tier, seed, 120 if tier == "quick" else 600)
